@@ -842,6 +842,9 @@ def corpus():
     c('subdir-args', "subdir()\n")
     c('subdir-int', "subdir(1)\n")
     c('subdir-list', "subdir(['a'])\nmessage('#1', x, '$')", a__meson_build="x = 1\n")
+    c('subproject-blank-messages', "sp = subproject('s1')\nmessage('#z', '\\n', '$')\n",
+      subprojects__s1__meson_build="project('s1')\nmessage('#a', '\\n', '$')\nx = {'a': 1}.values()\nmessage('#b', '', '$')\nmessage('#c', ' ', '$')\n"
+                                   "y = 1.to_string(fill: 2)\nmessage('#d', '\\n\\n', ' \\t', '$')\nmessage('#e', x, y, '$')\nmessage('#f', ' a \\n b \\n', '$')\n")
     c('adjacent-strings', "message('#1', 'a' 'b', '$')")
     c('unclosed-call', "message('#1', 'abc', '$'")
     c('plusassign-type', "x = 3\nx += 'a'")
